@@ -424,6 +424,10 @@ class Gen:
         """An existing name (to provoke duplicates) with probability 1-p_valid, else a fresh one."""
         if pool and self.rng.random() > self.p_valid:
             return self.rng.choice(pool)
+        # a name that was in use earlier and was given up (rename, removal): users recycle names
+        freed = [n for n in getattr(self, 'former', []) if n not in pool]
+        if freed and self.rng.random() < 0.3:
+            return self.rng.choice(freed)
         return self.fresh(prefix)
 
     def node_kw(self):
@@ -444,8 +448,38 @@ class Gen:
             kw['labels'] = {'vlan': str(r.randrange(5000))}          # may be invalid
         return kw
 
+    def recycle_name_macro(self):
+        """A short scripted sequence users produce when they reorganise a slice: a removal by name that is refused (wrong kind of
+        element), the element renamed, its old name given to a new node, and that new node removed by name again."""
+        tm = tm_of(self.topo)
+        nodes = tm.ids('NetworkNode')
+        if not nodes:
+            return []
+        busy = [n for n in nodes if any(tm.peers(i) for i in tm.node_ifaces(n) if tm.typ(i) != 'ServicePort')]
+        a = self.rng.choice(busy or nodes)
+        name, typ = tm.name(a), tm.typ(a)
+        wrong = 'remove_switch' if typ != 'Switch' else 'remove_facility'
+        kind = 'remove_switch' if typ == 'Switch' else ('remove_facility' if typ == 'Facility' else 'remove_node')
+        return [{'op': wrong, 'name': name},
+                {'op': 'rename', 'elem': ['node', name], 'new': self.fresh('rn')},
+                {'op': 'add_node', 'name': name, 'node_id': self.maybe_id('n'), 'site': self.rng.choice(SITES), 'ntype': 'VM', 'kw': {}},
+                {'op': 'remove_node', 'name': name}]
+
     def next_op(self):
+        if getattr(self, 'pending', None):
+            return self.pending.pop(0)
+        if self.rng.random() < 0.03:
+            self.pending = self.recycle_name_macro()
+            if self.pending:
+                return self.pending.pop(0)
         op = self._next_op()
+        if not hasattr(self, 'former'):
+            self.former = []
+        if op['op'] == 'rename' and op['elem'][0] in ('node', 'service'):
+            self.former.append(op['elem'][1])
+        elif op['op'] in ('remove_node', 'remove_facility', 'remove_switch', 'remove_network_service'):
+            self.former.append(op['name'])
+        del self.former[:-6]
         # a caller-supplied id that is already in use (any class) - must be refused without side effects
         if 'node_id' in op and op['op'] != 'make_stale_ifaces' and self.rng.random() > self.p_valid and self.rng.random() < 0.5:
             ids = sorted(tm_of(self.topo).n)
